@@ -92,7 +92,7 @@ def make_case(seed, facts, index=0):
     rng = random.Random(seed)
     swarm = {
         "optional_cols": rng.random() < 0.5, "permute": rng.random() < 0.8, "shapes": rng.random() < 0.5, "micro": rng.random() < 0.2,
-        "mixed_tz": rng.random() < 0.8, "need_uid": rng.random() < 0.7, "ts_styles": rng.choice([["space"], ["space", "T", "Z", "nocolon"]]),
+        "mixed_tz": rng.random() < 0.8, "need_uid": rng.random() < 0.7, "ts_styles": rng.choice([["space"], ["space", "T", "Z", "nocolon"], ["slash"], ["space", "slash"]]),
         "clock": rng.random() < 0.5, "env": rng.random() < 0.5, "hash": rng.random() < 0.5, "schedule": True, "window": rng.random() < 0.5,
         "n_assets": rng.choice([1, 2, 2, 3]), "n_rows": rng.choice([1, 2, 3, 4, 6, 8, 12]),
     }
@@ -356,7 +356,8 @@ def _kind_sweep_cases(master, facts):
     for k, (country, schedule) in enumerate(shapes):
         seed = gen.case_seed(master, PROP + "-sweep", k)
         rng = random.Random(seed)
-        swarm = {"optional_cols": True, "permute": k % 2 == 0, "shapes": False, "n_assets": 2, "n_rows": 6 if k else 40, "mixed_tz": True, "need_uid": True, "schedule": True, "window": False}
+        swarm = {"optional_cols": True, "permute": k % 2 == 0, "shapes": False, "n_assets": 2, "n_rows": 6 if k else 40, "mixed_tz": True, "need_uid": True, "schedule": True, "window": False,
+                 "ts_styles": [["space"], ["slash"], ["space", "T", "slash"], ["space", "Z", "nocolon"]][k % 4]}
         world = None
         best = None
         for _ in range(200):
